@@ -1,10 +1,42 @@
 #!/usr/bin/env python3
-"""Regenerates MANIFEST.json from the per-property META tables (props/cNN.py) + tools/manifest_table.json."""
-import json, os, sys
+"""Regenerates MANIFEST.json from the table below (one entry per claimed property)."""
+import json, os
 V = os.path.dirname(os.path.dirname(os.path.abspath(__file__)))
-tab = json.load(open(os.path.join(V, "tools", "manifest_table.json")))
+
+E1 = "symbolic execution of the real Python/numpy code on solver-backed scalars + SMT (z3) discharge per configuration, counterexample replay on the real code"
+NOTE_E1 = ("numpy object-array semantics taken as numpy's numeric semantics (validated per obligation by running the same harness on "
+           "rational constants vs plain numpy); floats modelled as reals; z3 5.1.0; shapes bounded as stated in evidence.bounds")
+
+CHECKS = {
+ "C01": dict(engine="symnp", category="other", design_ref="DESIGN.md §3 C01", technique=E1, note=NOTE_E1,
+   text="Bounded symbolic execution of the real permute_systems/swap/permutation_operator/swap_operator: for every enumerated configuration "
+        "(subsystem count, local dims incl. separate row/column dims, permutation, flags, dim-argument form) z3 proves cell-for-cell equality "
+        "with an independent index-map oracle for all entry values (uninterpreted sort / symbolic complex). Holds for all values within the "
+        "enumerated shapes; nothing is claimed outside the bound."),
+ "C02": dict(engine="symnp", category="other", design_ref="DESIGN.md §3 C02", technique=E1 + "; cvxpy path: affine map of the returned expression extracted on a basis, equality to the numeric path proved by z3",
+   note=NOTE_E1 + "; cvxpy's .value evaluation trusted for the affine extraction",
+   text="Bounded symbolic execution of the real partial_trace on symbolic complex matrices: definition (every S in every order / int), scalar and "
+        "omitted dim, composition, product form; cvxpy Variable path proved equal to the numeric path for all variable values."),
+ "C03": dict(engine="symnp", category="other", design_ref="DESIGN.md §3 C03", technique=E1 + "; cvxpy path: affine extraction + z3",
+   note=NOTE_E1 + "; cvxpy's .value evaluation trusted for the affine extraction",
+   text="Bounded symbolic execution of the real partial_transpose / realignment on uninterpreted-sort entries: exactly the indices in S are "
+        "exchanged (square and rectangular), involution / full transpose / complement identities, realignment index map and product form; "
+        "cvxpy Variable path equals numeric path."),
+}
+NOT_BUILT = "check not built yet in this round (planned per DESIGN.md §3); nothing is claimed"
+NA = {f"C{i:02d}": NOT_BUILT for i in range(1, 21) if f"C{i:02d}" not in CHECKS}
+
+ENGINES = [
+ {"name": "symnp", "path": "symnp/", "serves_properties": sorted(CHECKS),
+  "kind_free_text": "E1: symbolic execution of the real numpy code on object arrays of z3-backed scalars (polynomial normal form, monomial abstraction), decision-replay path exploration, z3 discharge, numeric replay"},
+ {"name": "sdpcap", "path": "sdpcap/", "serves_properties": [],
+  "kind_free_text": "E2: capture of the cvxpy/picos program the real code builds, exact affine extraction on a basis, z3 obligations T1/T2/T3"},
+]
+NOTES = ("fix: commits in /repo: cb7d15f (C01 omitted-dim root), 497f2e2 (C01 swap with 2-row dims); see known_findings.json 'fixed'. "
+         "Exit codes: 0 held / 1 VIOLATION (reproduced on the real code) / 2 harness error.")
+
 checks = []
-for pid, e in sorted(tab["checks"].items()):
+for pid, e in sorted(CHECKS.items()):
     checks.append({
         "property_id": pid,
         "quick_cmd": f"./vcheck {pid} --tier quick",
@@ -12,20 +44,21 @@ for pid, e in sorted(tab["checks"].items()):
         "evidence_file": f"evidence/{pid}.json",
         "replay_cmd_template": f"./vcheck {pid} --replay {{path}}",
         "engine": e["engine"],
-        "level_claimed": {"category": e["category"], "text": e["text"], "design_ref": e.get("design_ref", "DESIGN.md §3")},
+        "level_claimed": {"category": e["category"], "text": e["text"], "design_ref": e["design_ref"]},
         "level_note": e["note"],
         "technique": e["technique"],
     })
 m = {
     "version": 1,
     "setup_cmd": "./setup.sh",
-    "hooks": {"guard": "TOQITO_VERIF", "enable": "no source hooks: interception is done at run time from the harness (module-scoped name rebinding, Problem.solve patches)",
+    "hooks": {"guard": "TOQITO_VERIF",
+              "enable": "no source hooks: interception is done at run time from the harness (module-scoped name rebinding, Problem.solve patches)",
               "baseline_off_cmd": "cd /repo && /venv/bin/python -m pytest -ra -q -p no:cacheprovider --timeout=900 --continue-on-collection-errors",
               "source_commits": [], "add_only": True},
-    "engines": tab["engines"],
+    "engines": ENGINES,
     "checks": checks,
-    "notes": tab["notes"],
-    "not_applicable": [{"property_id": k, "reason": v} for k, v in sorted(tab["not_applicable"].items())],
+    "notes": NOTES,
+    "not_applicable": [{"property_id": k, "reason": v} for k, v in sorted(NA.items())],
 }
 json.dump(m, open(os.path.join(V, "MANIFEST.json"), "w"), indent=1)
-print("checks:", [c["property_id"] for c in checks], "n/a:", sorted(tab["not_applicable"]))
+print("checks:", [c["property_id"] for c in checks], "n/a:", sorted(NA))
